@@ -134,9 +134,22 @@ static inline Val mkval(unsigned char kind, unsigned char state, unsigned long t
 '''
 
 
+PINNED_ALIASES = ['using T = std::conditional_t<kIsException, std::exception_ptr, E>;',
+                  'using Arg = typename remove_cvref_t<FromCorePtr>::Value::Value;', 'using E = typename remove_cvref_t<FromCorePtr>::Value::Error;',
+                  'using ResultCoreT = typename std::remove_reference_t<decltype(*callback)>::Base;',
+                  'using AsyncRet = result_value_t<typename detail::Return<Arg, E, Func&&>::Type>;', 'using Ret0 = result_value_t<async_value_t<task_value_t<AsyncRet>>>;',
+                  'using Ret = std::conditional_t<std::is_same_v<Ret0, Unit>, void, Ret0>;', 'using Core = detail::Core<Ret, Arg, E, Func&&, CoreT, kAsync>;']
+
+
 def strip_static(t):
+    """static_asserts cannot change behaviour; type aliases are configuration and may only be dropped when their text is the pinned one (vf.cxx2c.drop_pinned)"""
+    from vf.cxx2c import _ws
     t = re.sub(r'static_assert\s*\((?:[^()]|\((?:[^()]|\([^()]*\))*\))*\)\s*;', '', t)
-    t = re.sub(r'\busing\s+\w+\s*=\s*[^;]+;', '', t)
+    for lit in PINNED_ALIASES:
+        t = re.sub(_ws(lit), '', t)
+    rest = re.findall(r'\busing\s+\w+\s*=[^;]*;', t)
+    if rest:
+        raise ExtractionBreak('core.hpp: type alias not pinned by the recipe (changed configuration cannot be decided by contracts): ' + ' '.join(rest[0].split())[:160])
     return t
 
 
@@ -667,7 +680,10 @@ void harness(void) { POOL_MAX = nondet_ulong(); __CPROVER_assume(POOL_MAX >= 1 &
     # ---- detail::SetCallback<CoreT, On>(core, executor, f)
     b_sc = find_body(repo, F, r'auto\s+SetCallback\s*\(\s*FromCorePtr\s*&&\s*core\s*,\s*IExecutor\s*\*\s*executor\s*,\s*Func\s*&&\s*f\s*\)', 'detail::SetCallback')
     t = strip_static(b_sc.text)
-    t = re.sub(r'static\s+constexpr\s+(?:bool|auto)\s+\w+\s*=[^;]*;', '', t)
+    from vf.cxx2c import drop_pinned
+    t = drop_pinned('detail::SetCallback', t, ['static constexpr bool Unique = std::is_same_v<UniqueCorePtr<Arg, E>&, FromCorePtr>;',
+                                               'static constexpr bool Shared = std::is_same_v<const SharedCorePtr<Arg, E>&, FromCorePtr>;',
+                                               'static constexpr auto From = Unique ? CoreType::FromUnique : CoreType::FromShared;'])
     m = re.search(r'auto\s*\*\s*caller\s*=\s*\[&\]\s*\{', t)
     if not m:
         raise ExtractionBreak('detail::SetCallback: the immediately-invoked lambda computing `caller` was not found')
